@@ -36,6 +36,14 @@ func main() {
 		return
 	case "c05":
 		set, in = streams.C05(*seed, *n)
+	case "c04":
+		set, in = streams.C04(*seed, *n)
+	case "c19":
+		set, in = streams.C19(*seed, *n)
+	case "c02":
+		set, in = streams.Pods("c02", *seed, *n, "Model.Api Model.Pod Model.Checks Corr.PodCases Corr.C02", "pod_case", "run_c02", true)
+	case "c03":
+		set, in = streams.Pods("c03", *seed, *n, "Model.Api Model.Pod Model.Checks Corr.PodCases Corr.C02", "pod_case", "run_c03", true)
 	case "podstext":
 		set, in = streams.Pods("podstext", *seed, *n, "Model.Api Model.Pod Model.Checks Corr.PodCases", "pod_case", "run_pods_text", true)
 	default:
